@@ -297,7 +297,8 @@ fn parse_at_rule(
                             ss.append_token(st, input, Some(peek.token.clone()));
                             match xs {
                                 "layer" => {
-                                    convert_class_names_and_rpx_in_block(input, ss);
+                                    // a layer name (`a.b`) is not a selector: no class prefixing
+                                    convert_rpx_in_block(input, ss, None);
                                 }
                                 "supports" => {
                                     let st =
